@@ -186,5 +186,34 @@ def sweep_listing(prop, seed, cfg, ops, tier, agg):
             agg.add_result(seed, cfg, ops2, r)
 
 
-SWEEPS = {"C11": sweep_collab, "C12": sweep_crash, "C13": sweep_ioerror,
+def sweep_append(prop, seed, cfg, ops, tier, agg):
+    """C16: the history as generated, plus an OSError at sampled I/O calls
+    of inserts (a failing insert must not start reading or rewriting)."""
+    from .runner import run_case
+    base = run_case(prop, cfg, ops)
+    agg.add_result(seed, cfg, ops, base)
+    if base.violation or base.harness or base.foreign:
+        return
+    if seed % 4 and tier == "quick":
+        return
+    w = base.world
+    rng = random.Random(seed * 7919 + 16)
+    targets = [j for j, op in enumerate(ops) if op["op"] in INSERTS and
+               w.op_steps.get(j)]
+    for j in _pick(rng, targets[len(targets) // 2:],
+                   1 if tier == "quick" else 4):
+        cands = []
+        for s in w.op_steps.get(j, ()):
+            if s[1] in PRE_ELIGIBLE:
+                cands.append((s, "pre"))
+            if s[1] in POST_ELIGIBLE:
+                cands.append((s, "post"))
+        for s, mode in _pick(rng, cands, 2 if tier == "quick" else 8):
+            f = {"step": s[0], "mode": mode, "err": "EIO"}
+            ops2 = _variant(ops, j, f, False)
+            r = run_case(prop, cfg, ops2)
+            agg.add_result(seed, cfg, ops2, r)
+
+
+SWEEPS = {"C16": sweep_append, "C11": sweep_collab, "C12": sweep_crash, "C13": sweep_ioerror,
           "C15": sweep_listing}
